@@ -16,8 +16,8 @@ CHECKS = {
    technique="deterministic simulation: seeded scheduler controlling real threads at lock/commit points with deadlock detection and sequential-outcome oracle",
    note="Trusted base: hooks H1/H2 (lock wrappers model parking_lot's writer preference; LMDB writer mutex shadowed by a token); scheduling granularity is lock operations, durable steps and sleeps."),
  "C16": dict(engine="pibdsim", cat="exploration", ref="5/C16",
-   text="State sync between a real serving node (Segmenter; optionally compacted) and a real headers-only receiver (Desegmenter) through a harness loop mirroring StateSync::continue_pibd, over a simulated network that reorders, duplicates, drops and corrupts serialized segment responses (one root-bound element per corruption), with segment heights 0-4 via the cfg(grin_verif) override; plus the zip path. Honest segments must validate, corrupted ones be refused, assembly must finish within a bounded number of fault-free rounds and the finalized state must equal that of a node that processed every block to the archive header (roots, sizes, unspent set, validate(false)); the rest of the chain is then accepted and a restart succeeds.",
-   technique="deterministic simulation: seeded segment delivery schedules with loss/duplication/reordering/corruption between real Segmenter and Desegmenter",
+   text="State sync between a real serving node (Segmenter; optionally compacted) and a real headers-only receiver (Desegmenter) through a harness loop mirroring StateSync::continue_pibd, over a simulated network that reorders, duplicates, drops and corrupts serialized segment responses (one root-bound element per corruption), with segment heights 0-4 via the cfg(grin_verif) override; plus the zip path. Honest segments must validate, corrupted ones be refused, assembly must finish within a bounded number of fault-free rounds and the finalized state must equal that of a node that processed every block to the archive header (roots, sizes, unspent set, validate(false)); the rest of the chain is then accepted and a restart succeeds. Per small world two more syncs run between two real nodes with their complete p2p stacks (E11 netsim): headers as Headers messages, segment requests through the receiver's real Peer object and outbound connection, answers from the serving node's real Protocol / NetToChainAdapter / Segmenter relayed by the simulator (fault free; and with a wire that loses, duplicates, delays and flips bytes), finishing in the same reference state.",
+   technique="deterministic simulation: seeded segment delivery schedules with loss/duplication/reordering/corruption between real Segmenter and Desegmenter, directly and over the two nodes' real p2p stacks",
    note="Trusted base: harness mirror of the sync loop and of receive_*_segment; the serving chain keeps its archive header at or above its compaction horizon (always true with mainnet parameters); one case in eight has a multi-chunk bitmap (1081+ real outputs)."),
  "C14": dict(engine="poolsim", cat="exploration", ref="5/C14",
    text="A real chain plus a real TransactionPool, wired through the real servers::PoolToChainAdapter and ChainToPoolAndNetAdapter as Server::new wires them, are driven with seeded interleavings of submissions of every kind (valid, dependent on one or two pooled parents, conflicting, duplicate, aggregated incl. an under-fee remainder, under-fee, fee-shifted honest / underpaying, output-less, bad signature, immature / just-mature / mixed-maturity coinbase spends, future/next lock height, fluffing of a stemmed transaction, stem/fluff with simulated relay failures), blocks mined from the mineable set, blocks with arbitrary pool subsets and conflicting spends, headers arriving ahead of their blocks, reorgs and capacity shrinks (every schedule contains a shrink below the current size followed by an under-fee and a valid submission); after every operation the pool's joint validity on the current head, per-entry fee/weight/validity, stempool+txpool validity and the mineable set are checked, and blocks built from the mineable set must be accepted by the chain. Every other run is a network run (E11 netsim): the node carries its complete p2p stack and the real PoolToNetAdapter, submissions and blocks arrive as peer messages from lock-stepped simulated peers (transactions also announced by kernel hash, blocks also header-first and compact with the node's requests served), an outbound simulated peer is the node's Dandelion relay in three of four such runs, and before every block mined from the pool the node's own mine_block::get_block must return a block within the weight limit that a replica of the node's data directory accepts.",
@@ -130,7 +130,7 @@ def main():
              "kind_free_text": "seeded baton scheduler over real threads on one real Chain"},
             {"name": "dbsim", "path": "/verif/sim/src/dbsim.rs", "serves_properties": [p for p in claimed if p == "C18"],
              "kind_free_text": "real LMDB wrapper against a nested-transaction map model; seeded thread schedules; crash points around commit"},
-            {"name": "netsim", "path": "/verif/sim/src/netsim.rs", "serves_properties": [p for p in claimed if p in ("C03", "C06", "C14")],
+            {"name": "netsim", "path": "/verif/sim/src/netsim.rs", "serves_properties": [p for p in claimed if p in ("C03", "C06", "C14", "C16")],
              "kind_free_text": "one real node with its complete p2p stack (Peers, Peer, Handshake, conn threads, Protocol, servers adapters, pool, chain) against simulated remote peers on lock-stepped loopback sockets"},
             {"name": "chainsim", "path": "/verif/sim/src/chainsim.rs", "serves_properties": [p for p in claimed if CHECKS[p]["engine"] == "chainsim" or p == "C08"],
              "kind_free_text": "deterministic simulation of N real Chain nodes on a simulated network with byzantine inputs"},
